@@ -1,4 +1,5 @@
 import SlogModel.Lemmas.Client
+import SlogModel.Lemmas.ClientHealthy
 import SlogModel.Gen.Facts
 
 /-!
@@ -139,6 +140,70 @@ theorem C02_retransmitted_until_acked (q : List Nat) (hq : q.Pairwise (· < ·))
   obtain ⟨more, s', a, b, c, _⟩ := C02_can_always_deliver s hf hi.sess
   have hr : run (init q) (acts ++ more) = some s' := by rw [run_append, h]; exact a
   exact ⟨more, s', hr, b, c, (C02_resend_order q hq _ s' hr).1⟩
+
+/-! ### once the upstream behaves: every schedule confirms everything, in a bounded number of steps
+
+`C02_can_always_deliver` shows a way out of every state.  The theorems below are about *every* way: from a good state —
+between two sessions, or inside a session in which nothing has failed yet — and with an upstream that from then on accepts
+connections, takes every chunk and acknowledges the chunk the acknowledger waits for (`C02.healthy`: the eight actions that
+remain), every run, under every interleaving of sender and acknowledger, is at most `C02.mu s` steps long (6 per chunk waiting,
+less for chunks further along), keeps the state good, and can only stop when leftovers, queue and session are empty — every
+chunk taken is then confirmed.  What this leaves out is fairness (that the goroutines do take their steps) and the states that
+are not good: a session in which an ACK with an unknown id left a chunk pending behind the acknowledger's back stays as it is
+until the session ends (maximum session age, the next error, a reconnect request), which is what `C02_can_always_deliver`
+covers. -/
+
+theorem good_between_sessions (s : St) (hf : s.finished = false) (hs : s.sess = none) : Good s :=
+  ⟨hf, by intro x hx; rw [hs] at hx; cases hx⟩
+
+/-- **C02 (bounded, schedule-independent delivery once the upstream behaves).** -/
+theorem C02_healthy_future_confirms_everything (q : List Nat) (hq : q.Nodup) (pre : List Act) (s : St)
+    (h : run (init q) pre = some s) (hg : Good s)
+    (acts : List Act) (hacts : ∀ a ∈ acts, a ∈ healthy) (s' : St) (h' : run s acts = some s') :
+    acts.length ≤ mu s ∧ Good s' ∧
+      ((∀ a ∈ healthy, step s' a = none) →
+        s'.left = [] ∧ s'.queue = [] ∧ ∀ c ∈ s'.taken, c ∈ s'.confirmed ∨ c ∈ s'.handed) := by
+  obtain ⟨g', hm⟩ := healthy_run acts s s' hacts h' hg
+  refine ⟨by omega, g', ?_⟩
+  intro hstuck
+  obtain ⟨h1, h2, h3⟩ := healthy_stuck s' g' hstuck
+  refine ⟨h1, h2, ?_⟩
+  have hrun : run (init q) (pre ++ acts) = some s' := by rw [run_append, h]; exact h'
+  have hc := (run_inv _ _ (pre ++ acts) hrun (init_inv q hq)).cons
+  intro c hc'
+  have := hc c
+  rw [h3, List.append_nil] at this
+  have hpos : 0 < (s'.confirmed ++ s'.handed).count c := by rw [← this]; exact List.count_pos_iff.mpr hc'
+  exact List.mem_append.mp (List.count_pos_iff.mp hpos)
+
+/-- … and such a run to the end exists from every good state (it is any healthy run that is continued while it can be) -/
+theorem C02_healthy_future_exists : ∀ (n : Nat) (s : St), mu s ≤ n → Good s →
+    ∃ acts s', (∀ a ∈ acts, a ∈ healthy) ∧ run s acts = some s' ∧ ∀ a ∈ healthy, step s' a = none
+  | n, s, hn, hg => by
+    by_cases hst : ∀ a ∈ healthy, step s a = none
+    · exact ⟨[], s, by simp, rfl, hst⟩
+    · have : ∃ a ∈ healthy, ∃ s1, step s a = some s1 := by
+        apply Classical.byContradiction
+        intro hcon
+        apply hst
+        intro a ha
+        cases hs : step s a with
+        | none => rfl
+        | some s1 => exact absurd ⟨a, ha, s1, hs⟩ hcon
+      obtain ⟨a, ha, s1, hs⟩ := this
+      obtain ⟨g1, m1⟩ := healthy_step s s1 a ha hs hg
+      cases n with
+      | zero => omega
+      | succ n =>
+        obtain ⟨acts, s', h1, h2, h3⟩ := C02_healthy_future_exists n s1 (by omega) g1
+        exact ⟨a :: acts, s', by intro b hb; simp at hb; rcases hb with rfl | hb; exact ha; exact h1 b hb,
+          by simp [run, hs, h2], h3⟩
+
+/-- non-vacuity: after a failed session (leftover 1, chunks 2 and 3 still queued) the client is between sessions — a good
+state with `mu = 20` — and a healthy run of 17 steps confirms all three -/
+example : (run (init [1, 2, 3]) [.connectOk, .recoveryDone, .takeInput, .sendErr, .ackChanClosed, .finishCollect]).map
+    (fun s => (s.sess.isNone, s.left, s.queue, mu s)) = some (true, [1], [2, 3], 20) := by
+  simp [run, step, init, newLeft, dedupSorted, List.mergeSort, List.MergeSort.Internal.splitInTwo, mu]
 
 /-! ### the monitor: an accepted trace of the real client inherits the theorems -/
 
